@@ -30,7 +30,7 @@ def be(v, n):
   return [(v >> (8 * (n - 1 - i))) & 0xff for i in range(n)]
 
 
-def h_history(ctx, plan, pool, table_cap=None):
+def h_history(ctx, plan, pool, table_cap=None, to_controller=False):
   env.get_core()
   of = ctx.pox('pox.openflow.libopenflow_01'); swm = ctx.pox('pox.datapaths.switch'); pkt = ctx.pox('pox.lib.packet')
   # table_cap: a flow table that holds so few entries that the flow_mods of the history are refused with ALL_TABLES_FULL - a flow_mod that
@@ -107,7 +107,9 @@ def h_history(ctx, plan, pool, table_cap=None):
       use_none = ctx.bool('nobuf%d' % i)
       outport = 2 if op == 'P' else 3
       drop = bool(ctx.bool('drop%d' % i))          # an empty action list: the buffered packet is dropped - and its buffer released all the same
-      acts = [] if drop else [of.ofp_action_output(port=outport)]
+      # ... or the stored packet is bounced to the controller again (output:CONTROLLER): the new packet-in names a buffer that really holds it
+      toctl = (not drop) and to_controller and not bool(use_none) and bool(ctx.bool('toctl%d' % i))
+      acts = [] if drop else [of.ofp_action_output(port=(0xfffd if toctl else outport), max_len=0xffff)]
       if op == 'P':
         msg = of.ofp_packet_out(in_port=0xffff, actions=acts)
         msg.buffer_id = None if use_none else bid
@@ -124,7 +126,23 @@ def h_history(ctx, plan, pool, table_cap=None):
           ctx.check('flow_mod without buffer emits nothing', len(outs) == no)
       else:
         b = int(bid)
-        if b in live:
+        if b in live and toctl:
+          raw, inp = live.pop(b)
+          ctx.witness('bounced')
+          pis = [m for m in sent[nb:] if isinstance(m, of.ofp_packet_in)]
+          ctx.check('bounced to the controller: exactly one packet-in, nothing emitted', len(pis) == 1 and len(outs) == no)
+          if len(pis) == 1:
+            _, pi = of.ofp_packet_in.unpack_new(pis[0].pack())
+            ctx.check('bounced: reason ACTION, total_len is the frame length', ctx.And(pi.reason == 1, pi.total_len == L))
+            if pi.buffer_id is not None:
+              nid = int(pi.buffer_id)
+              ctx.check('bounced: the id in the packet-in is not one the controller still holds', nid not in live)
+              slot = sw._packet_buffer[nid - 1] if 0 < nid <= len(sw._packet_buffer) else None
+              ctx.check('bounced: the id in the packet-in names a buffer that holds this packet', slot is not None and ctx.Eq(slot[0].pack(), raw))
+              live[nid] = (raw, inp)
+            else:
+              ctx.check('bounced without a buffer: the whole frame is carried', ctx.Eq(pi.data, raw))
+        elif b in live:
           raw, inp = live.pop(b)
           ctx.witness('released')
           ok = len(outs) == no + (0 if drop else 1)
@@ -137,7 +155,7 @@ def h_history(ctx, plan, pool, table_cap=None):
         else:
           ctx.witness('stale')
           ctx.check('stale/bogus id emits nothing', len(outs) == no)
-      ctx.check('no packet-in from packet_out/flow_mod', all(not isinstance(m, of.ofp_packet_in) for m in sent[nb:]))
+      if not toctl: ctx.check('no packet-in from packet_out/flow_mod', all(not isinstance(m, of.ofp_packet_in) for m in sent[nb:]))
       if op == 'F' and table_cap == 0:
         ctx.witness('table-full')
         ctx.check('a flow_mod refused because the table is full is answered with FLOW_MOD_FAILED / ALL_TABLES_FULL',
@@ -209,11 +227,14 @@ def obligations(tier):
   plans = PLANS_T + (['mmmPP', 'mcPmF', 'mPmPm', 'SmcPF', 'mmFPm', 'cmPPm'] if thorough else [])
   pools = [0, 1, 2, 3] + ([4] if thorough else [])
   cases = [dict(plan=p, pool=k) for p in plans for k in pools]
+  bounce = [dict(plan=p, pool=k, to_controller=True) for p in (['mPP', 'mFP', 'mmPP'] + (['mPmPP', 'mFPF'] if thorough else [])) for k in (1, 2, 3)]
   full = [dict(plan=p, pool=2, table_cap=0) for p in (['mF', 'mmFF', 'mFmF'] + (['mFPm', 'mmFPF'] if thorough else []))]
   BOUNDS[tier] = dict(histories=plans, pool_sizes=pools, frame_bytes=L, legend="m=table miss, c=hit on a send-to-controller flow (symbolic max_len), "
                       "P=packet_out(symbolic buffer id 0..5 or none+data; output or empty action list), F=flow_mod(symbolic buffer id or none; output or empty action list), S=set_config(symbolic miss_send_len)")
   return [Obligation('O1_history', h_history, cases, witnesses=('done', 'buffered', 'pool-full', 'released', 'stale', 'dropped'), max_decisions=20000,
                      desc='buffer pool vs reference over symbolic histories'),
+          Obligation('O4_bounce', h_history, bounce, witnesses=('done', 'bounced', 'released'), max_decisions=20000,
+                     desc='a buffered packet sent to the controller again (packet_out / flow_mod with output:CONTROLLER): the new packet-in carries an id that really holds it'),
           Obligation('O3_two_switches', h_two_switches, [dict(pool2=k) for k in (0, 1, 2)], witnesses=('done', 'foreign-id', 'same-number'),
                      desc='two switches in one process: buffer ids and pool bounds are per switch'),
           Obligation('O2_table_full', h_history, full, witnesses=('done', 'table-full', 'released'), max_decisions=20000,
